@@ -110,6 +110,17 @@ func (c *roomCtx) applyFault(t tree, f fault) bool {
 			cur[name] = []interface{}{raw}
 		}
 	default:
+		if f.Kind == "refs" {
+			valid, _ := lookup(t, segs)
+			selfID, _ := t["event_id"].(string)
+			if selfID == "" {
+				selfID = "$selfAAAAAAAAAAAAAAAAAAAAAAAAAAAAAAAAAAAAAAA"
+			}
+			if v, ok := c.refsClass(f.Cls, valid, selfID); ok {
+				cur[last] = v
+				return true
+			}
+		}
 		raw, absent := classValue(f.Kind, f.Cls, rawOf(lookup(t, segs)))
 		if absent {
 			delete(cur, last)
